@@ -7,9 +7,11 @@ cd /verif
 par=${1:-3}
 one() {
   d=$1; name=$(basename $d); prop=${name%%-*}
-  if ! (cd /repo && git apply --check /verif/$d/patch.diff 2>/dev/null); then echo "$name: patch does not apply to the current tree (skipped)"; return; fi
   tmp=$(mktemp /var/tmp/recheck.XXXXXX)
-  if ./selftest/run_mutant.sh $d/patch.diff $prop >$tmp 2>&1; then res=caught; else res=missed; fi
+  ./selftest/run_mutant.sh $d/patch.diff $prop >$tmp 2>&1; rc=$?
+  # run_mutant applies with patch(1) (tolerates shifted context after later fix commits); 3 = does not apply
+  if [ $rc -eq 3 ]; then echo "$name: patch does not apply to the current tree (skipped)"; rm -f $tmp; return; fi
+  if [ $rc -eq 0 ]; then res=caught; else res=missed; fi
   echo "$name: $res $(grep -m1 VIOLATION $tmp | sed 's/.*obligation=//' | cut -c1-120)"
   python3 - "$d/meta.json" "$prop" "$res" <<'PY'
 import json,sys
